@@ -1,12 +1,12 @@
-//! Kani harnesses: real `oxidd-rules-bdd::simple` algorithms over the stub `KManager`.
+//! Kani harnesses: real `oxidd-rules-bdd::complement_edge` algorithms over the stub `KManager`.
 #![allow(unused, clippy::all)]
 
 pub mod kind {
     use super::*;
-    use oxidd_rules_bdd::simple::{BDDOp, BDDRules, BDDTerminal};
+    use oxidd_rules_bdd::complement_edge::{BCDDOp, BCDDRules, BCDDTerminal, EdgeTag};
 
     pub const ARITY: usize = 2;
-    pub const NTERM: usize = 2;
+    pub const NTERM: usize = 1;
     #[cfg(not(feature = "l4"))]
     pub const N: usize = 6;
     #[cfg(feature = "l4")]
@@ -15,16 +15,14 @@ pub mod kind {
     pub const L: usize = 3;
     #[cfg(feature = "l4")]
     pub const L: usize = 4;
-    pub const K_TAGS: bool = false;
+    pub const K_TAGS: bool = true;
 
-    pub type KTag = ();
-    pub type KTerminal = BDDTerminal;
-    pub type KTermRef<'a> = BDDTerminal;
-    pub type KRules = BDDRules;
-    pub type KOp = BDDOp;
+    pub type KTag = EdgeTag;
+    pub type KTerminal = BCDDTerminal;
+    pub type KTermRef<'a> = BCDDTerminal;
+    pub type KRules = BCDDRules;
+    pub type KOp = BCDDOp;
 
-    /// ghost semantics: truth table, bit `a` = value under the assignment whose
-    /// bit `l` is the value of the variable at level `l`
     #[cfg(not(feature = "l4"))]
     pub type G = u8;
     #[cfg(feature = "l4")]
@@ -61,9 +59,10 @@ pub mod kind {
         #[cfg(feature = "l4")]
         return [b(), b(), b(), b(), b(), b(), b(), b()];
     }
+    /// the only terminal is "true"; "false" is the complemented edge to it
     #[inline(always)]
-    pub fn g_terminal(_m: &KManager, id: u32) -> G {
-        if id == 1 { !0 } else { 0 }
+    pub fn g_terminal(_m: &KManager, _id: u32) -> G {
+        !0
     }
     #[inline(always)]
     pub fn g_node(m: &KManager, level: LevelNo, ch: &[KEdge; ARITY]) -> G {
@@ -71,16 +70,16 @@ pub mod kind {
         (m.g(&ch[0]) & k) | (m.g(&ch[1]) & !k)
     }
     #[inline(always)]
-    pub fn g_tagged(g: G, _t: bool) -> G {
-        g
+    pub fn g_tagged(g: G, t: bool) -> G {
+        if t { !g } else { g }
     }
     #[inline(always)]
-    pub fn k_terminal_ref<'a>(_m: &'a KManager, id: u32) -> BDDTerminal {
-        if id == 1 { BDDTerminal::True } else { BDDTerminal::False }
+    pub fn k_terminal_ref<'a>(_m: &'a KManager, _id: u32) -> BCDDTerminal {
+        BCDDTerminal
     }
     #[inline(always)]
-    pub fn k_get_terminal(_m: &KManager, t: BDDTerminal) -> AllocResult<u32> {
-        Ok(t as u32)
+    pub fn k_get_terminal(_m: &KManager, _t: BCDDTerminal) -> AllocResult<u32> {
+        Ok(0)
     }
     #[inline(always)]
     pub fn k_terminal_in_use(_m: &KManager, _id: u32) -> bool {
@@ -92,43 +91,24 @@ pub mod kind {
     }
     #[inline(always)]
     pub fn k_same_fn(a: G, b: G) -> bool {
-        a == b
+        a == b || a == !b
     }
     #[inline(always)]
     pub fn k_is_terminal_fn(_m: &KManager, g: G) -> bool {
         g == 0 || g == !0
     }
-    /// BDD reduction rule: then != else
+    /// BCDD reduction rules: then != else, then-edge uncomplemented
     #[inline(always)]
     pub fn k_reduced(_m: &KManager, _l: LevelNo, ch: &[KEdge; ARITY]) -> bool {
-        ch[0].0 != ch[1].0
+        ch[0].0 != ch[1].0 && !ch[0].tagged()
     }
 
     include!("../../common/tt.rs");
-    pub fn bin_spec(op: BDDOp, a: G, b: G) -> G {
+
+    pub fn k_rank(op: BCDDOp) -> u32 {
+        use BCDDOp::*;
         match op {
-            BDDOp::And => a & b,
-            BDDOp::Or => a | b,
-            BDDOp::Nand => !(a & b),
-            BDDOp::Nor => !(a | b),
-            BDDOp::Xor => a ^ b,
-            BDDOp::Equiv => !(a ^ b),
-            BDDOp::Imp => !a | b,
-            BDDOp::ImpStrict => !a & b,
-            _ => {
-                assert!(false, "HARNESS: not a binary operator");
-                0
-            }
-        }
-    }
-    fn q_of(op: BDDOp) -> Q {
-        match op { BDDOp::Forall => Q::Forall, BDDOp::Exists => Q::Exists, _ => Q::Unique }
-    }
-    pub fn k_rank(op: BDDOp) -> u32 {
-        use BDDOp::*;
-        match op {
-            Not => RANK_NOT,
-            And | Or | Nand | Nor | Xor | Equiv | Imp | ImpStrict => RANK_BIN,
+            And | Xor => RANK_BIN,
             Ite => RANK_ITE,
             Restrict => RANK_RESTRICT,
             Forall | Exists | Unique => RANK_QUANT,
@@ -136,31 +116,16 @@ pub mod kind {
             _ => RANK_APPLY_QUANT,
         }
     }
-    fn split_apply_quant(op: BDDOp) -> (BDDOp, BDDOp) {
-        use BDDOp::*;
-        match op {
-            ForallAnd => (Forall, And), ForallOr => (Forall, Or), ForallNand => (Forall, Nand), ForallNor => (Forall, Nor),
-            ForallXor => (Forall, Xor), ForallEquiv => (Forall, Equiv), ForallImp => (Forall, Imp), ForallImpStrict => (Forall, ImpStrict),
-            ExistsAnd => (Exists, And), ExistsOr => (Exists, Or), ExistsNand => (Exists, Nand), ExistsNor => (Exists, Nor),
-            ExistsXor => (Exists, Xor), ExistsEquiv => (Exists, Equiv), ExistsImp => (Exists, Imp), ExistsImpStrict => (Exists, ImpStrict),
-            UniqueAnd => (Unique, And), UniqueOr => (Unique, Or), UniqueNand => (Unique, Nand), UniqueNor => (Unique, Nor),
-            UniqueXor => (Unique, Xor), UniqueEquiv => (Unique, Equiv), UniqueImp => (Unique, Imp), _ => (Unique, ImpStrict),
-        }
-    }
     /// Specification of a cache key: the truth table its value must have
-    pub fn k_spec(m: &KManager, op: BDDOp, ops: &[Borrowed<KEdge>], nums: &[u32]) -> G {
-        use BDDOp::*;
+    pub fn k_spec(m: &KManager, op: BCDDOp, ops: &[Borrowed<KEdge>], nums: &[u32]) -> G {
+        use BCDDOp::*;
         let a = m.g(&ops[0]);
         let b = if ops.len() > 1 { m.g(&ops[1]) } else { 0 };
         let c = if ops.len() > 2 { m.g(&ops[2]) } else { 0 };
         match op {
-            Not => {
-                assert!(ops.len() == 1 && nums.len() == 0, "C06: cache key arity matches the operator");
-                !a
-            }
-            And | Or | Nand | Nor | Xor | Equiv | Imp | ImpStrict => {
+            And | Xor => {
                 assert!(ops.len() == 2 && nums.len() == 0, "C06: cache key arity matches the operator");
-                bin_spec(op, a, b)
+                if let And = op { a & b } else { a ^ b }
             }
             Ite => {
                 assert!(ops.len() == 3 && nums.len() == 0, "C06: cache key arity matches the operator");
@@ -174,7 +139,7 @@ pub mod kind {
             Forall | Exists | Unique => {
                 assert!(ops.len() == 2 && nums.len() == 0, "C06: cache key arity matches the operator");
                 assert!(is_pos_cube(b), "C04: quantifier recursion keeps a positive cube as variable set");
-                quant_tt(q_of(op), a, b)
+                quant_tt(match op { Forall => Q::Forall, Exists => Q::Exists, _ => Q::Unique }, a, b)
             }
             Substitute => {
                 assert!(ops.len() == 1 && nums.len() == 1, "C06: cache key arity matches the operator");
@@ -184,8 +149,15 @@ pub mod kind {
             _ => {
                 assert!(ops.len() == 3 && nums.len() == 0, "C06: cache key arity matches the operator");
                 assert!(is_pos_cube(c), "C04: quantifier recursion keeps a positive cube as variable set");
-                let (q, o) = split_apply_quant(op);
-                quant_tt(q_of(q), bin_spec(o, a, b), c)
+                match op {
+                    ForallAnd => quant_tt(Q::Forall, a & b, c),
+                    ForallXor => quant_tt(Q::Forall, a ^ b, c),
+                    ExistAnd => quant_tt(Q::Exists, a & b, c),
+                    ExistXor => quant_tt(Q::Exists, a ^ b, c),
+                    UniqueAnd => quant_tt(Q::Unique, a & b, c),
+                    UniqueNand => quant_tt(Q::Unique, !(a & b), c),
+                    _ => quant_tt(Q::Unique, a ^ b, c),
+                }
             }
         }
     }
@@ -201,5 +173,3 @@ include!("../../common/kmanager.rs");
 
 #[cfg(kani)]
 mod proofs;
-#[cfg(kani)]
-mod cache_proofs;
